@@ -55,4 +55,58 @@ prop("C09", "Message structures: accepted iff they match their CDDL, slots map t
              "protected headers are related to their parse only through the parser stub",
      assumptions=[])
 
+prop("C15", "Integers are decoded exactly or rejected as out of range, never wrapped",
+     kani={"quick": ["c15_"], "thorough": ["c15x_"], "timeout": {"quick": 400, "thorough": 1800}, "jobs": 8},
+     mirsym={"jobs": _jl("c15"), "budget_s": {"quick": 240, "thorough": 1800}},
+     bounds={
+         "quick": "Kani: every CBOR integer n in [-2^64, 2^64-1] at every narrowing site reachable with a "
+                  "single leaf Value (Label, the four RegisteredLabel and two RegisteredLabelWithPrivate "
+                  "instantiations, cwt::Timestamp) and the encode direction for all i64; mirsym: the sites "
+                  "inside containers (map labels of Header / CoseKey / ClaimsSet, crit and key_ops entries, "
+                  "PartyInfo nonce, SuppPubInfo key data length (unsigned range), claim timestamps), all n, "
+                  "containers with <= 1 map entry / <= 2 list elements, and preservation of integers in "
+                  "uninterpreted positions",
+         "thorough": "as quick with 2 map entries per container",
+     },
+     outside="head-width handling inside ciborium (parser stub)",
+     assumptions=[])
+
+prop("C17", "Registry names and integers correspond one-to-one with the IANA assignments",
+     kani={"quick": ["c17_"], "thorough": ["c17x_"], "timeout": {"quick": 400, "thorough": 1800}, "jobs": 8,
+           "pre": "gen_c17"},
+     bounds={
+         "quick": "all 16 registry enumerations: from_i64/to_i64 over every i64; every row of the independent "
+                  "reference table /verif/iana_ref.json (222 rows); is_private over every i64 for the four "
+                  "registries with a private range; label classification over every CBOR integer in "
+                  "[-2^64, 2^64-1] for all six label-typed instantiations; text labels ASCII length <= 2",
+         "thorough": "same (the quantification is already over the full integer domain)",
+     },
+     outside="the reference table is a manual transcription of the IANA registries (no network to re-fetch)",
+     assumptions=["reference table /verif/iana_ref.json transcribed independently of coset's source"])
+
+prop("C08", "Header maps: accepted iff well-formed, and every field means what the wire said",
+     mirsym={"jobs": _jl("c08"), "budget_s": {"quick": 300, "thorough": 2400}},
+     bounds={
+         "quick": "header maps with <= 2 entries (every kind of key and value, all integer labels and values, "
+                  "text <= 2 ASCII bytes, nested arrays <= 3 elements, 5 array elements in total) standalone; "
+                  "as unprotected header and inside the protected bstr of a COSE_Encrypt0 with 1 entry in total",
+         "thorough": "<= 3 entries standalone (text <= 3), 2 entries in total inside the carrier",
+     },
+     outside="maps with more entries; non-ASCII text in the content-type whitespace rule; the claim that the "
+             "outcome depends only on the data-model value rests on coset seeing only a ciborium Value (C13)",
+     assumptions=[])
+
+prop("C10", "COSE_Key / COSE_KeySet: accepted iff well-formed, parameters map to fields",
+     mirsym={"jobs": _jl("c10"), "budget_s": {"quick": 300, "thorough": 2400}},
+     bounds={"quick": "key maps with <= 2 entries, key_ops arrays <= 3; key sets of <= 2 keys with 3 entries in total",
+             "thorough": "key maps <= 3 entries; key sets <= 3 keys, 4 entries in total"},
+     outside="larger maps / sets", assumptions=[])
+
+prop("C18", "CWT claims sets and KDF contexts decode and encode per their definitions",
+     mirsym={"jobs": _jl("c18"), "budget_s": {"quick": 300, "thorough": 2400}},
+     bounds={"quick": "claims maps <= 2 entries; COSE_KDF_Context arrays of arity 0..6 with every kind per slot, "
+                      "PartyInfo / SuppPubInfo arrays of arity 0..5",
+             "thorough": "claims maps <= 3 entries, KDF context arity 0..7"},
+     outside="encode direction is covered by C11's check; larger maps", assumptions=[])
+
 NOT_APPLICABLE = {}
